@@ -963,7 +963,10 @@ fn compile_string_case(
         .collect();
 
     let default = if default_rows.is_empty() {
-        None
+        // No catch-all: a string matching none of the literals has no arm. Strings cannot be
+        // enumerated, so the match must fail at run time instead of falling out of the switch
+        // with the zero value.
+        Some(Box::new(emissing(ty)))
     } else {
         Some(Box::new(compile_rows(
             genv,
